@@ -531,6 +531,10 @@ func pvc_havoc[T any](x *T)      {}
 // pvc_suffix(a, b): a is a tail of b (same memory, same end), or empty.
 func pvc_suffix(a, b []byte) bool { return true }
 
+// pvc_local(s): s is nil/empty-capacity or lives in memory this function allocated
+// itself (so it cannot overlap anything that existed when the function was entered).
+func pvc_local[T any](s []T) bool { return true }
+
 // pvc_idx names the iteration counter of a range loop that has no index variable.
 var pvc_idx int
 `
